@@ -722,3 +722,7 @@ C.assume('pretty_dispatch.registry is modelled without the entry singledispatch 
 C.assume('pretty_dispatch.dispatch(T) is the first direct entry along T.__mro__ (singledispatch for concrete classes; abstract base '
          'classes with virtual subclasses and the dispatch cache are not modelled)')
 C.assume('inspect.signature(fn).bind(value, ctx) is a deterministic property of fn (accepts2)')
+C.assume('all_accept(dfr) stands for the quantified fact "every pending by-name printer accepted (value, ctx) when it was registered"; it is '
+         'used through three instances assumed where the dictionary is touched: the popped printer accepts; removing an entry and storing an '
+         'accepting printer preserve it (hooks _dfr_pop, _setitem_dfr)')
+C.assume('type.__mro__ is a non-empty list headed by the type (instance of lemma_mro_head assumed where __mro__ is read)')
